@@ -2,8 +2,8 @@ package c14
 
 import (
 	"fmt"
-	"os"
 	"math/big"
+	"os"
 
 	"github.com/Oneledger/protocol/action"
 	"github.com/Oneledger/protocol/data/balance"
@@ -144,6 +144,9 @@ func (o op) build(w *harness.World, height int64, memo string) *harness.TxSpec {
 		return gov.ProposalFinalize(PropID, U[o.Actor], memo)
 	case opStake:
 		v := w.Vals[o.Actor]
+		if o.Amount < 0 {
+			return stk.Unstake(v.Val, v.Stake, stk.WholeOLT(-o.Amount), memo)
+		}
 		return stk.Stake(v, v.Stake, stk.WholeOLT(o.Amount), memo)
 	case opGov:
 		return o.gov(w, height, memo)
@@ -195,6 +198,8 @@ var (
 	oWdA10     = op{Name: "withdraw(A,10->C)", Kind: opWithdraw, Actor: 0, Amount: 10, Benef: 2, Legit: true, MinDepth: 3} // proposer's initial funding, to a third party
 	oExpireC   = op{Name: "user-expire(C)", Kind: opExpire, Actor: 2, Legit: true, MinDepth: 5}
 	oFinalizeC = op{Name: "user-finalize(C)", Kind: opFinalize, Actor: 2, Legit: true, MinDepth: 4}
+	// V3 (1M) drops to one below the minimum self-delegation: its record keeps power but it is no validator any more
+	oUnstakeV3 = op{Name: "unstake(V3,down-to-minimum-1)", Kind: opStake, Actor: 2, Amount: -500001, Legit: true, MinDepth: 1}
 	oStakeV4   = op{Name: "stake(V4,1M)", Kind: opStake, Actor: 3, Amount: 1000000, Legit: true, MinDepth: 1}
 )
 
@@ -218,6 +223,9 @@ func Events(tier string) []event {
 		pair(oV2Yes, oFinalizeC),   // decision and a stranger's finalisation in the same block
 		pair(oExpireC, oFinalizeC), // expiry and finalisation by a stranger in one block
 		pair(oCancelA, oWdB30),     // cancel and refund in one block
+		// (added after a seeded change - the snapshot taken over every validator RECORD, also of validators that
+		// lost their seat - escaped the quick alphabet, in which the validator set never changed)
+		single(oUnstakeV3),
 	}
 	if tier == "thorough" {
 		ev = append(ev,
@@ -267,13 +275,13 @@ func scriptedEvents() []event {
 		fmt.Sscan(v, &past) // timing experiments only
 	}
 	return []event{
-		{Name: "create-config(A)+pct:create+fund", Ops: []op{oCreateC, qCreate, qFund}},  // 1000
-		{Name: "fund(C,90)+pct:votes(V1,V2 yes)", Ops: []op{oFundC, qVote(0), qVote(1)}}, // 1001
-		{Name: "vote(V1,yes)+vote(V3,yes)", Ops: []op{oV1Yes, oV3Yes}},                   // 1002: 4M of 6M = 66.7 %: above 51, below 67
-		{Name: "user-finalize(C)", Ops: []op{oFinalizeC}},                                // 1003
-		{Name: "user-expire(C)", Ops: []op{oExpireC}},                                    // 1004
-		{Name: "empty", Ops: nil},                                                        // 1005
-		{Name: "vote(V2,yes)", Ops: []op{oV2Yes}},                                        // 1006: 6M of 6M together with 1002
+		{Name: "create-config(A)+pct:create+fund", Ops: []op{oCreateC, qCreate, qFund}},                  // 1000
+		{Name: "fund(C,90)+pct:votes(V1,V2 yes)", Ops: []op{oFundC, qVote(0), qVote(1)}},                 // 1001
+		{Name: "vote(V1,yes)+vote(V3,yes)", Ops: []op{oV1Yes, oV3Yes}},                                   // 1002: 4M of 6M = 66.7 %: above 51, below 67
+		{Name: "user-finalize(C)", Ops: []op{oFinalizeC}},                                                // 1003
+		{Name: "user-expire(C)", Ops: []op{oExpireC}},                                                    // 1004
+		{Name: "empty", Ops: nil},                                                                        // 1005
+		{Name: "vote(V2,yes)", Ops: []op{oV2Yes}},                                                        // 1006: 6M of 6M together with 1002
 		{Name: fmt.Sprintf("%d-empty-blocks;user-finalize(C)", past), Skip: past, Ops: []op{oFinalizeC}}, // 1007
 		{Name: fmt.Sprintf("%d-empty-blocks;user-expire(C)", past), Skip: past, Ops: []op{oExpireC}},     // 1008
 		{Name: fmt.Sprintf("%d-empty-blocks", past), Skip: past},                                         // 1009
